@@ -13,37 +13,37 @@ import (
 func init() {
 	register(&Rule{
 		ID: "R02.1", Props: []string{"C02", "C07", "C03"}, Engine: "order (path automaton, err-edge sensitive)",
-		Text: "atomic state file: in directoryBackedPersistentStateStore.WritePersistentState every path to the nil return performs, in this order and each only after the previous one succeeded: remove a left-over temporary file, OpenAppend of the temporary name with CreateExcl, Write, Sync and Close of that file, Rename of the temporary name over the state name, Sync of the directory; no step's error is ignored",
+		Text:  "atomic state file: in directoryBackedPersistentStateStore.WritePersistentState every path to the nil return performs, in this order and each only after the previous one succeeded: remove a left-over temporary file, OpenAppend of the temporary name with CreateExcl, Write, Sync and Close of that file, Rename of the temporary name over the state name, Sync of the directory; no step's error is ignored",
 		Floor: 1, MustExist: true, Run: runR021,
 	})
 	register(&Rule{
 		ID: "R06.4", Props: []string{"C06", "C02"}, Engine: "order (must-pass-through) + sibling agreement",
-		Text: "both LocationRecordArray implementations consult the resolver for every record they return or reject: every return of Get is preceded by a BlockReferenceResolver.BlockReferenceToBlockIndex call on the record's own block reference; ErrLocationRecordInvalid is returned only on the resolver's miss edge (block device: or the checksum mismatch edge, the checksum being computed with the hash seed that resolver call returned); Put converts through BlockIndexToBlockReference",
+		Text:  "both LocationRecordArray implementations consult the resolver for every record they return or reject: every return of Get is preceded by a BlockReferenceResolver.BlockReferenceToBlockIndex call on the record's own block reference; ErrLocationRecordInvalid is returned only on the resolver's miss edge (block device: or the checksum mismatch edge, the checksum being computed with the hash seed that resolver call returned); Put converts through BlockIndexToBlockReference",
 		Floor: 4, MustExist: true, Run: runR064,
 	})
 	register(&Rule{
 		ID: "R06.5", Props: []string{"C06"}, Engine: "abstract evaluation over a finite order domain",
-		Text: "Location.IsOlder is the strict lexicographic order on (BlockIndex, OffsetBytes): evaluated abstractly for all nine combinations of {<,=,>} on the two fields, the function's control flow yields true exactly for (<,*) and (=,<)",
+		Text:  "Location.IsOlder is the strict lexicographic order on (BlockIndex, OffsetBytes): evaluated abstractly for all nine combinations of {<,=,>} on the two fields, the function's control flow yields true exactly for (<,*) and (=,<)",
 		Floor: 1, MustExist: true, Run: runR065,
 	})
 	register(&Rule{
 		ID: "R06.6", Props: []string{"C06"}, Engine: "guard",
-		Text: "a lookup gives up only at the end of the probe chain: every NOT_FOUND return of hashingKeyLocationMap.Get is on the edge where the slot's record is unresolvable (ErrLocationRecordInvalid) or where the attempt limit was reached",
+		Text:  "a lookup gives up only at the end of the probe chain: every NOT_FOUND return of hashingKeyLocationMap.Get is on the edge where the slot's record is unresolvable (ErrLocationRecordInvalid) or where the attempt limit was reached",
 		Floor: 2, MustExist: true, Run: runR066,
 	})
 	register(&Rule{
 		ID: "R05.6", Props: []string{"C05"}, Engine: "guard + order",
-		Text: "a copy is written only for an object that still needs one: in Get, GetFromComposite and FindMissing of both local stores every refresh allocation (LocationBlobMap.Put) is dominated by the true edge of the needs-refresh verdict of a LocationBlobMap.Get made in the same lock hold (no unlock in between), so an object refreshed by someone else in the meantime is not copied again",
+		Text:  "a copy is written only for an object that still needs one: in Get, GetFromComposite and FindMissing of both local stores every refresh allocation (LocationBlobMap.Put) is dominated by the true edge of the needs-refresh verdict of a LocationBlobMap.Get made in the same lock hold (no unlock in between), so an object refreshed by someone else in the meantime is not copied again",
 		Floor: 5, MustExist: true, Run: runR056,
 	})
 	register(&Rule{
 		ID: "R09.5", Props: []string{"C09"}, Engine: "flow",
-		Text: "no CAS buffer manufactures a clean end of stream: in package buffer newErrorChunkReader / newErrorReader / NewBufferFromError are never given io.EOF (a reader that immediately reports io.EOF is a successful, empty, unvalidated read)",
+		Text:  "no CAS buffer manufactures a clean end of stream: in package buffer newErrorChunkReader / newErrorReader / NewBufferFromError are never given io.EOF (a reader that immediately reports io.EOF is a successful, empty, unvalidated read)",
 		Floor: 10, MustExist: false, Run: runR095,
 	})
 	register(&Rule{
 		ID: "R10.4", Props: []string{"C10"}, Engine: "flow (wiring)",
-		Text: "a hierarchical local store announces instance-aware keys: in the configuration code that calls NewHierarchicalInstanceNamesLocalBlobAccess the digest key format given to the store and reported in BlobAccessInfo is digest.KeyWithInstance whenever HierarchicalInstanceNames is set (decorators such as existence caches key their state by it)",
+		Text:  "a hierarchical local store announces instance-aware keys: in the configuration code that calls NewHierarchicalInstanceNamesLocalBlobAccess the digest key format given to the store and reported in BlobAccessInfo is digest.KeyWithInstance whenever HierarchicalInstanceNames is set (decorators such as existence caches key their state by it)",
 		Floor: 1, MustExist: true, Run: runR104,
 	})
 }
